@@ -10,6 +10,13 @@
   The only side condition is `(encode x).length < 2^64` for the encoder → decoder direction: a Go
   slice is shorter than 2^63 bytes, and a 9-byte length does not exist in the format
   (`encode_needs_bound` shows the condition cannot be dropped in the model).
+
+  Typed layer (reflection schemas, Header, Profile, Asset, change-log payloads, ChangeLog, lists of change logs, Block):
+  the statements are about the model with `fx = true`, i.e. /repo with the strictness fixes listed in
+  LemoModel/RlpSchema.lean.  For that code BOTH directions hold without a guard on the wire form:
+  `X_roundtrip` (decode ∘ encode = id on well-formed values) and `X_reencode` (decode b = some v → encode v = b: one
+  byte string per value, hence Hash(decoded) = Keccak(wire)).  `namespace Legacy` keeps the refutations of the
+  `X_reencode` statements on the code before the fixes (`fx = false`) as labelled witnesses; they are not registered.
 -/
 import LemoModel.Rlp
 import LemoProofs.Lemmas.RlpBytes
@@ -499,20 +506,23 @@ theorem encode_needs_bound (b : List UInt8) (hb : b.length = 2 ^ 64) :
   intro h
   cases h
 
-/-! ### typed layer: structs of uint / byte-string / fixed-array / big.Int / slice fields -/
+/-! ### typed layer: structs of uint / byte-string / fixed-array / big.Int / slice fields
+
+  `fx` is the flag of LemoModel/RlpSchema.lean: `true` = /repo as it is (with the strictness fixes), `false` = the code
+  before them (only the labelled witnesses of `namespace Legacy` below use `false`). -/
 
 /-- typed decoding of bytes = generic decoding, then the per-type checks of the schema -/
-def decodeTyped (s : Schema) (b : List UInt8) : Option Val :=
+def decodeTyped (fx : Bool) (s : Schema) (b : List UInt8) : Option Val :=
   match decode b with
-  | .ok it => decodeS s it
+  | .ok it => decodeS fx s it
   | .error _ => none
 
 def encodeTyped (s : Schema) (v : Val) : Option (List UInt8) := (encodeS s v).map encode
 
 /-- **schema_roundtrip**: a well-typed value decodes from its own encoding to itself — for every schema,
-    `rlp:"nil"` pointers included. -/
-theorem schema_roundtrip {s : Schema} {v : Val} {b : List UInt8}
-    (h : encodeTyped s v = some b) (hb : b.length < 2 ^ 64) : decodeTyped s b = some v := by
+    `rlp:"nil"` pointers included (the code as it is and the code before ac28a64 alike: strictness only). -/
+theorem schema_roundtrip {fx : Bool} {s : Schema} {v : Val} {b : List UInt8}
+    (h : encodeTyped s v = some b) (hb : b.length < 2 ^ 64) : decodeTyped fx s b = some v := by
   unfold encodeTyped at h
   cases he : encodeS s v with
   | none => rw [he] at h; cases h
@@ -522,93 +532,70 @@ theorem schema_roundtrip {s : Schema} {v : Val} {b : List UInt8}
     subst h
     unfold decodeTyped
     rw [decode_encode it hb]
-    exact decodeS_encodeS v s it he
+    exact decodeS_encodeS fx v s it he
 
-/- Full statement wanted by C14 ("re-encoding the decoded value yields the original bytes"):
-     ∀ s b v, decodeTyped s b = some v → encodeTyped s v = some b
-   It is FALSE for the code as it is: a `rlp:"nil"` pointer field accepts the empty *list* 0xC0 as nil
-   but nil is written as the empty *string* 0x80 (`schema_reencode_refuted`, `tx_reencode_refuted`).
-   It holds for every schema without such a field: -/
-
-/-- **schema_reencode_partial**: without `rlp:"nil"` fields, whatever the typed decoder accepts
-    re-encodes to exactly the accepted bytes. -/
-theorem schema_reencode_partial {s : Schema} {v : Val} {b : List UInt8} (hs : noOpt s = true)
-    (h : decodeTyped s b = some v) : encodeTyped s v = some b := by
+/-- **schema_reencode** (the FULL statement "re-encoding the decoded value yields the original bytes"): whatever a typed
+    reflection decoder accepts re-encodes to exactly the accepted bytes — every schema, `rlp:"nil"` pointer fields
+    included, no guard.  (Before /repo ac28a64 this held only for schemas without such a field:
+    `Legacy.schema_reencode_refuted`, `Legacy.tx_reencode_refuted`.) -/
+theorem schema_reencode {s : Schema} {v : Val} {b : List UInt8}
+    (h : decodeTyped true s b = some v) : encodeTyped s v = some b := by
   unfold decodeTyped at h
   split at h
   · rename_i it hd
     unfold encodeTyped
-    rw [encodeS_decodeS it s v hs h]
+    rw [encodeS_decodeS it s v h]
     simp only [Option.map_some, Option.some.injEq]
     exact canonical hd
   · cases h
 
-/-- the exact guard for a `rlp:"nil"` field: everything except the empty list re-encodes identically -/
-theorem optFixed_reencode_partial {n : Nat} {it : Item} {v : Val} (hn : 0 < n)
-    (h : decodeS (.optFixed n) it = some v) (hne : it ≠ .list []) : encodeS (.optFixed n) v = some it := by
-  cases it with
-  | bytes b =>
-    simp only [decodeS] at h
-    split at h
-    · rename_i hb
-      cases h
-      have : b = [] := by cases b with
-        | nil => rfl
-        | cons a t => simp at hb
-      subst this; simp [encodeS]
-    · split at h
-      · rename_i hl
-        cases h
-        simp [encodeS, hl, hn]
-      · cases h
-  | list xs =>
-    simp only [decodeS] at h
-    split at h
-    · rename_i hx
-      have : xs = [] := by cases xs with
-        | nil => rfl
-        | cons a t => simp at hx
-      subst this
-      exact absurd rfl hne
-    · cases h
+/-- a `rlp:"nil"` field: every accepted item re-encodes identically (nil is the empty string and nothing else) -/
+theorem optFixed_reencode {n : Nat} {it : Item} {v : Val}
+    (h : decodeS true (.optFixed n) it = some v) : encodeS (.optFixed n) v = some it :=
+  encodeS_decodeS it (.optFixed n) v h
 
-/-- refutation of the full statement on the model: 0xC0 in a `rlp:"nil"` position -/
-theorem schema_reencode_refuted :
-    decodeS (.optFixed 20) (.list []) = some .nil ∧ encodeS (.optFixed 20) .nil = some (.bytes []) ∧
-    encode (.bytes []) = [0x80] ∧ encode (.list []) = [0xC0] := by
-  refine ⟨rfl, rfl, by decide, by decide⟩
+/-- the empty list in a `rlp:"nil"` position is an error ("wrong kind of empty value") -/
+theorem optFixed_rejects_list (n : Nat) (xs : List Item) : decodeS true (.optFixed n) (.list xs) = none := rfl
 
-/-- a complete transaction body whose `to` field is the empty list -/
+/-- two byte strings that decode to the same typed value are equal: one wire encoding per value -/
+theorem schema_unique_encoding {s : Schema} {v : Val} {b₁ b₂ : List UInt8}
+    (h₁ : decodeTyped true s b₁ = some v) (h₂ : decodeTyped true s b₂ = some v) : b₁ = b₂ := by
+  have e₁ := schema_reencode h₁
+  have e₂ := schema_reencode h₂
+  rw [e₁] at e₂
+  exact Option.some.inj e₂
+
+/-- instances: wire header (`rlpHeader`), deputy node, confirm / confirms / handshake messages, event, equity and —
+    new with ac28a64 — the transaction body -/
+theorem rlpHeader_reencode {v : Val} {b : List UInt8} (h : decodeTyped true headerSchema b = some v) :
+    encodeTyped headerSchema v = some b := schema_reencode h
+theorem deputyNode_reencode {v : Val} {b : List UInt8} (h : decodeTyped true deputyNodeSchema b = some v) :
+    encodeTyped deputyNodeSchema v = some b := schema_reencode h
+theorem blockConfirm_reencode {v : Val} {b : List UInt8} (h : decodeTyped true blockConfirmSchema b = some v) :
+    encodeTyped blockConfirmSchema v = some b := schema_reencode h
+theorem blockConfirms_reencode {v : Val} {b : List UInt8} (h : decodeTyped true blockConfirmsSchema b = some v) :
+    encodeTyped blockConfirmsSchema v = some b := schema_reencode h
+theorem handshake_reencode {v : Val} {b : List UInt8} (h : decodeTyped true handshakeSchema b = some v) :
+    encodeTyped handshakeSchema v = some b := schema_reencode h
+theorem event_reencode {v : Val} {b : List UInt8} (h : decodeTyped true eventSchema b = some v) :
+    encodeTyped eventSchema v = some b := schema_reencode h
+theorem assetEquity_reencode {v : Val} {b : List UInt8} (h : decodeTyped true assetEquitySchema b = some v) :
+    encodeTyped assetEquitySchema v = some b := schema_reencode h
+/-- **tx_reencode**: a transaction has exactly one wire encoding (`to` / `gasPayer` are `rlp:"nil"` fields) -/
+theorem tx_reencode {v : Val} {b : List UInt8} (h : decodeTyped true txSchema b = some v) :
+    encodeTyped txSchema v = some b := schema_reencode h
+theorem tx_roundtrip {v : Val} {b : List UInt8} (h : encodeTyped txSchema v = some b) (hb : b.length < 2 ^ 64) :
+    decodeTyped true txSchema b = some v := schema_roundtrip h hb
+
+/-- a complete transaction body whose `to` field is the empty list (the witness of the closed finding
+    `nil-pointer-as-empty-list`) -/
 def txWitness : Item :=
   .list [.bytes [1], .bytes [1], .bytes [7], .bytes (List.replicate 20 1), .bytes [], .list [], .bytes [],
          .bytes [2], .bytes [100], .bytes [], .bytes [5], .bytes [1, 2], .bytes [3, 232], .bytes [],
          .list [], .list []]
 
-/-- the transaction decoder accepts `txWitness`, and the decoded transaction encodes to different bytes -/
-theorem tx_reencode_refuted :
-    ∃ v it', decodeS txSchema txWitness = some v ∧ encodeS txSchema v = some it' ∧ encode it' ≠ encode txWitness := by
-  refine ⟨_, _, rfl, rfl, ?_⟩
-  simp (disch := decide) only [toBE_fromBE]
-  decide
-
-theorem consensus_schemas_noOpt :
-    noOpt headerSchema = true ∧ noOpt deputyNodeSchema = true ∧ noOpt blockConfirmSchema = true ∧
-    noOpt blockConfirmsSchema = true ∧ noOpt handshakeSchema = true ∧ noOpt eventSchema = true ∧
-    noOpt assetEquitySchema = true ∧ noOpt txSchema = false := by decide
-
-/-- instances: wire header (`rlpHeader`), deputy node, confirm / confirms / handshake messages, event, equity -/
-theorem header_reencode {v : Val} {b : List UInt8} (h : decodeTyped headerSchema b = some v) :
-    encodeTyped headerSchema v = some b := schema_reencode_partial (by decide) h
-theorem deputyNode_reencode {v : Val} {b : List UInt8} (h : decodeTyped deputyNodeSchema b = some v) :
-    encodeTyped deputyNodeSchema v = some b := schema_reencode_partial (by decide) h
-theorem blockConfirm_reencode {v : Val} {b : List UInt8} (h : decodeTyped blockConfirmSchema b = some v) :
-    encodeTyped blockConfirmSchema v = some b := schema_reencode_partial (by decide) h
-theorem blockConfirms_reencode {v : Val} {b : List UInt8} (h : decodeTyped blockConfirmsSchema b = some v) :
-    encodeTyped blockConfirmsSchema v = some b := schema_reencode_partial (by decide) h
-theorem handshake_reencode {v : Val} {b : List UInt8} (h : decodeTyped handshakeSchema b = some v) :
-    encodeTyped handshakeSchema v = some b := schema_reencode_partial (by decide) h
-theorem tx_roundtrip {v : Val} {b : List UInt8} (h : encodeTyped txSchema v = some b) (hb : b.length < 2 ^ 64) :
-    decodeTyped txSchema b = some v := schema_roundtrip h hb
+/-- … is rejected by the code as it is -/
+theorem txWitness_rejected : decodeS true txSchema txWitness = none := by rfl
 
 /-! ### `Header` on top of `rlpHeader`: elision of the empty transaction / change-log root -/
 
@@ -628,12 +615,24 @@ theorem root_roundtrip (E h : List UInt8) (hl : h.length = 32) :
       | cons a t => rfl
     simp [this, bytesToHash_32 hl]
 
-/- Full statement: ∀ b, encRoot E (decRoot E b) = b.  FALSE for the code as it is (`root_reencode_refuted_*`):
-   `DecodeRLP` takes *any* byte string for TxRoot/LogRoot.  Exact guard: -/
-theorem root_reencode_partial (E b : List UInt8)
-    (hb : b = [] ∨ (b.length = 32 ∧ b ≠ E)) : encRoot E (decRoot E b) = b := by
+/-- what the encoder writes for a root is accepted by `decodeRoot` -/
+theorem rootOk_encRoot (E h : List UInt8) (hl : h.length = 32) : rootOk E (encRoot E h) = true := by
+  unfold encRoot rootOk
+  by_cases he : h = E
+  · rw [if_pos he]; rfl
+  · rw [if_neg he]
+    have : h.isEmpty = false := by cases h with
+      | nil => simp at hl
+      | cons a t => rfl
+    simp [this, hl, he]
+
+/-- **root_reencode** (full): every wire form of a root that `decodeRoot` accepts (`rootOk`: empty, or 32 bytes other
+    than the empty-trie hash) is what the encoder writes for the decoded root.  (Before /repo 05de783 every byte string
+    was accepted: `Legacy.root_reencode_refuted_short`, `Legacy.root_reencode_refuted_explicit`.) -/
+theorem root_reencode (E b : List UInt8) (hb : rootOk E b = true) : encRoot E (decRoot E b) = b := by
+  have hb' := LemoProofs.RlpCustomLemmas.rootOk_iff hb
   unfold encRoot decRoot
-  cases hb with
+  cases hb' with
   | inl h => subst h; simp
   | inr h =>
     have : b.isEmpty = false := by cases b with
@@ -641,25 +640,16 @@ theorem root_reencode_partial (E b : List UInt8)
       | cons a t => rfl
     simp [this, bytesToHash_32 h.1, h.2]
 
-/-- a 1-byte root is accepted and comes back as 32 bytes -/
-theorem root_reencode_refuted_short (E : List UInt8) (hE : E ≠ bytesToHash [1]) :
-    encRoot E (decRoot E [1]) ≠ [1] := by
-  unfold encRoot decRoot
-  simp only [List.isEmpty_cons, Bool.false_eq_true, if_false]
-  rw [if_neg (fun h => hE h.symm)]
-  decide
-
-/-- the empty root written out explicitly (32 bytes) is accepted and comes back elided -/
-theorem root_reencode_refuted_explicit (E : List UInt8) (hE : E.length = 32) :
-    encRoot E (decRoot E E) ≠ E := by
-  unfold encRoot decRoot
-  have hne : E.isEmpty = false := by cases E with
+/-- the two shapes of the closed finding `header-root` are rejected: a root of another length, and the empty-trie root
+    written out in full -/
+theorem root_rejects_short (E : List UInt8) : rootOk E [1] = false := by
+  unfold rootOk; simp
+theorem root_rejects_explicit (E : List UInt8) (hE : E.length = 32) : rootOk E E = false := by
+  unfold rootOk
+  have : E.isEmpty = false := by cases E with
     | nil => simp at hE
     | cons a t => rfl
-  simp only [hne, Bool.false_eq_true, if_false, bytesToHash_32 hE, if_true]
-  intro h
-  rw [← h] at hE
-  simp at hE
+  simp [this]
 
 /-! ### never a panic: the partial primitives of the generic decoder are always used inside their domain -/
 
@@ -800,12 +790,14 @@ theorem rawSplit_never_panics (b : List UInt8) : rawSplitChk b ≠ .panic := by
 
 end NoPanic
 
-/-! ### hand-written codecs: Profile, change-log payloads, ChangeLog, lists of change logs, Header
+/-! ### hand-written codecs: Profile, Asset, change-log payloads, ChangeLog, lists of change logs, Header
 
   `ChangeLog.Hash()` is Keccak of the log's own RLP, so for change logs "re-encoding the decoded value yields
-  the original bytes" is exactly "the hash of what was received is the hash of what is stored".  The clause is
-  FALSE for the code as it is; the model (LemoModel/RlpCustom.lean, tied by the `typed …` ops) carries every
-  laxness, the theorems below give the exact guards, and the refutations are the open findings. -/
+  the original bytes" is exactly "the hash of what was received is the hash of what is stored".  Since the strictness
+  fixes of /repo (05de783, 8a6b205, 7e982c7, 4ab6b74, a0389ea, 29ca096, f02560a, 4e3d12b) the clause HOLDS for the code
+  as it is: the theorems below state it without any guard on the wire form.  The model (LemoModel/RlpCustom.lean with
+  `fx = true`) is tied to the real decoders by the `typed …` ops; the laxness of the code before the fixes is kept as
+  `fx = false` and refuted in `namespace Legacy` (labelled witnesses, not registered). -/
 
 section Custom
 open LemoModel.RlpCustom LemoProofs.RlpCustomLemmas
@@ -824,71 +816,51 @@ theorem encode_list_inj {xs ys : List Item} (hx : (encodeList xs).length < 2 ^ 6
   injection h1 with h1 _
   exact h1.symm
 
-/-- a key-sorted Profile decodes from its own encoding to itself -/
-theorem profile_roundtrip (ps : List KV) (h : Sorted ps) : decodeProfile (encodeProfile ps) = some ps :=
+/-- a Profile (a Go map, kept as a key-sorted association list) decodes from its own encoding to itself -/
+theorem profile_roundtrip (ps : List KV) (h : Sorted ps) : decodeProfile true (encodeProfile ps) = some ps :=
   decodeProfile_encodeProfile ps h
 
-/- Full statement: decodeProfile it = some ps → encodeProfile ps = it.  FALSE (profile_refuted_*).  Guard: the
-   wire item is the list of strictly key-sorted pairs: -/
-theorem profile_reencode_partial {it : Item} {ps : List KV} (h : decodeProfile it = some ps)
-    (hc : ∃ qs, Sorted qs ∧ it = encodeProfile qs) : encodeProfile ps = it := by
-  obtain ⟨qs, hq, hit⟩ := hc
-  subst hit
-  rw [decodeProfile_encodeProfile qs hq] at h
-  cases h; rfl
+/-- **profile_reencode** (full): whatever `Profile.DecodeRLP` accepts is the encoding of the decoded map — no size-zero
+    forms, no duplicate and no unsorted keys.  (Before /repo 8a6b205: `Legacy.profile_refuted_*`.) -/
+theorem profile_reencode {it : Item} {ps : List KV} (h : decodeProfile true it = some ps) : encodeProfile ps = it :=
+  (encodeProfile_decodeProfile h).1
 
-/-- finding `profile`: a duplicate key is accepted, the last value wins (0xCA C4 6B 82 76 31 C4 6B 82 76 32 → C5 C4 6B 82 76 32) -/
-theorem profile_refuted_duplicate :
-    decodeProfile (.list [pairItem ([0x6b], [0x76, 0x31]), pairItem ([0x6b], [0x76, 0x32])]) = some [([0x6b], [0x76, 0x32])] ∧
-    encode (encodeProfile [([0x6b], [0x76, 0x32])]) ≠
-      encode (.list [pairItem ([0x6b], [0x76, 0x31]), pairItem ([0x6b], [0x76, 0x32])]) := by
-  refine ⟨by decide, by decide⟩
+/-- … and the decoded association list is key-sorted, i.e. a map -/
+theorem profile_decoded_sorted {it : Item} {ps : List KV} (h : decodeProfile true it = some ps) : Sorted ps :=
+  (encodeProfile_decodeProfile h).2
 
-/-- finding `profile`: unsorted pairs are accepted and come back sorted -/
-theorem profile_refuted_unsorted :
-    decodeProfile (.list [pairItem ([0x62], [1]), pairItem ([0x61], [1])]) = some [([0x61], [1]), ([0x62], [1])] ∧
-    encode (encodeProfile [([0x61], [1]), ([0x62], [1])]) ≠ encode (.list [pairItem ([0x62], [1]), pairItem ([0x61], [1])]) := by
-  refine ⟨by decide, by decide⟩
+theorem asset_roundtrip (fs : List Val) (ps : List KV) (it : Item) (hs : Sorted ps)
+    (h : encodeAsset (fs, ps) = some it) : decodeAsset true it = some (fs, ps) :=
+  decodeAsset_encodeAsset fs ps it hs h
 
-/-- finding `profile`: the empty string 0x80 and a single byte like 0x12 are accepted as the empty profile (written 0xC0) -/
-theorem profile_refuted_empty_forms :
-    decodeProfile (.bytes []) = some [] ∧ decodeProfile (.bytes [0x12]) = some [] ∧
-    encode (encodeProfile []) = [0xC0] ∧ encode (.bytes []) = [0x80] ∧ encode (.bytes [0x12]) = [0x12] := by
-  refine ⟨by decide, by decide, by decide, by decide, by decide⟩
+/-- **asset_reencode** (full): an accepted Asset has all eight elements and re-encodes identically
+    (before 8a6b205 the Profile element could be missing: `Legacy.asset_refuted_missing_profile`) -/
+theorem asset_reencode {it : Item} {fs : List Val} {ps : List KV} (h : decodeAsset true it = some (fs, ps)) :
+    encodeAsset (fs, ps) = some it := (encodeAsset_decodeAsset h).1
 
-/-- finding `profile` (missing field): an Asset list without its Profile element is accepted
-    (`Profile.DecodeRLP` ignores the EOL of `Stream.Kind`) and re-encodes with the empty profile appended -/
-theorem asset_refuted_missing_profile :
-    ∃ v it', decodeAsset (.list [.bytes [1], .bytes [], .bytes (List.replicate 32 0), .bytes [5], .bytes [], .bytes [],
-        .bytes (List.replicate 20 0)]) = some v ∧ encodeAsset v = some it' ∧
-      encode it' ≠ encode (.list [.bytes [1], .bytes [], .bytes (List.replicate 32 0), .bytes [5], .bytes [], .bytes [],
-        .bytes (List.replicate 20 0)]) := by
-  refine ⟨_, _, rfl, rfl, ?_⟩
-  simp (disch := decide) only [toBE_fromBE]
-  intro h
-  exact absurd (encode_list_inj (by decide) (by decide) h) (by decide)
+/-- **payload_roundtrip**: every payload value written by the encoder is read back by the registered decoder.  `Wf` holds
+    representation invariants of the VALUE only (a Profile is a key-sorted association list, a Signers payload is a
+    list); the value-level asymmetries of the code before 29ca096 / f02560a / 4e3d12b (an empty Signers list or an empty
+    Profile read back as an untyped nil / a `*interface{}`) are gone. -/
+theorem payload_roundtrip (p : PDec) (v : CVal) (it : Item) (h : runEnc p v = some it) (hok : Wf p v) :
+    runDec true p it = some v := runDec_runEnc p v it h hok
 
-/-- **payload_roundtrip**: every payload value written by the encoder is read back by the registered decoder,
-    under `RtOk` (a non-nil pointer payload must not encode to a size-zero item; profiles are key-sorted). -/
-theorem payload_roundtrip (p : PDec) (v : CVal) (it : Item) (h : runEnc p v = some it) (hok : RtOk p v it) :
-    runDec p it = some v := runDec_runEnc p v it h hok
-
-/-- **payload_reencode_partial**: on the `Strict` wire forms the payload decoders are injective. -/
-theorem payload_reencode_partial (p : PDec) (v : CVal) (it : Item) (h : runDec p it = some v) (hs : Strict p it) :
-    runEnc p v = some it := runEnc_runDec p v it h hs
+/-- **payload_reencode** (full): every registered payload decoder is injective on everything it accepts. -/
+theorem payload_reencode (p : PDec) (v : CVal) (it : Item) (h : runDec true p it = some v) :
+    runEnc p v = some it := runEnc_runDec p v it h
 
 theorem decU32_enc {n : Nat} {a : Item} (h : encodeS (.uint 32) (.nat n) = some a) : decU32 a = some n := by
-  unfold decU32; rw [decodeS_encodeS _ _ _ h]
+  unfold decU32; rw [decodeS_encodeS true _ _ _ h]
 
 theorem decAddr_enc {b : List UInt8} {a : Item} (h : encodeS (.fixed 20) (.bytes b) = some a) : decAddr a = some b := by
-  unfold decAddr; rw [decodeS_encodeS _ _ _ h]
+  unfold decAddr; rw [decodeS_encodeS true _ _ _ h]
 
 theorem enc_decU32 {n : Nat} {a : Item} (h : decU32 a = some n) : encodeS (.uint 32) (.nat n) = some a := by
   unfold decU32 at h
   split at h
   · rename_i m hm
     cases h
-    exact encodeS_decodeS a (.uint 32) _ rfl hm
+    exact encodeS_decodeS a (.uint 32) _ hm
   · cases h
 
 theorem enc_decAddr {b : List UInt8} {a : Item} (h : decAddr a = some b) : encodeS (.fixed 20) (.bytes b) = some a := by
@@ -896,34 +868,42 @@ theorem enc_decAddr {b : List UInt8} {a : Item} (h : decAddr a = some b) : encod
   split at h
   · rename_i m hm
     cases h
-    exact encodeS_decodeS a (.fixed 20) _ rfl hm
+    exact encodeS_decodeS a (.fixed 20) _ hm
   · cases h
 
-/-- **changeLog_roundtrip**: a change log of any of the 19 registered types decodes from its own encoding to
-    itself when both payloads satisfy `RtOk`. -/
-theorem changeLog_roundtrip (l : CLog) (it : Item) (h : encodeChangeLog l = some it)
-    (hg : ∀ p q d e, logDecoders l.logType = some (p, q) → runEnc p l.newVal = some d → runEnc q l.extra = some e →
-      RtOk p l.newVal d ∧ RtOk q l.extra e) : decodeChangeLog it = some l := by
+/-- representation invariants of a change-log VALUE (see `Wf`): its profiles are maps, a SignerLog holds a Signers list -/
+def WfLog (l : CLog) : Prop :=
+  ∀ p q, logDecoders l.logType = some (p, q) → Wf p l.newVal ∧ Wf q l.extra
+
+/-- in the registered table a `nilOr` decoder belongs to a struct with fields (AssetEquity, ProfileChangeLogExtra) -/
+theorem logDecoders_nilOr {lt : Nat} {p q : PDec} (h : logDecoders lt = some (p, q)) :
+    (∀ fs, p = .nilOr fs → fs ≠ []) ∧ (∀ fs, q = .nilOr fs → fs ≠ []) := by
+  unfold logDecoders at h
+  split at h
+  all_goals first
+    | (cases h; done)
+    | (cases h
+       refine ⟨?_, ?_⟩ <;> intro fs hfs <;> cases hfs <;> simp [extraFields, equityFields])
+
+/-- **changeLog_roundtrip**: a change log of any of the 19 registered types decodes from its own encoding to itself. -/
+theorem changeLog_roundtrip (l : CLog) (it : Item) (h : encodeChangeLog l = some it) (hg : WfLog l) :
+    decodeChangeLog true it = some l := by
   unfold encodeChangeLog at h
   split at h
   · rename_i p q hpq
     split at h
     · rename_i a b c d e ha hb hc hd he
       cases h
-      have g := hg p q d e hpq hd he
+      have g := hg p q hpq
       simp only [decodeChangeLog, decU32_enc ha, decAddr_enc hb, decU32_enc hc, hpq,
         runDec_runEnc p _ d hd g.1, runDec_runEnc q _ e he g.2]
     · cases h
   · cases h
 
-/-- the wire forms of a change log on which `ChangeLog.DecodeRLP` is injective -/
-def StrictLog (it : Item) : Prop :=
-  ∀ a b c d e lt p q, it = .list [a, b, c, d, e] → decU32 a = some lt → logDecoders lt = some (p, q) →
-    Strict p d ∧ Strict q e
-
-/- Full statement: decodeChangeLog it = some l → encodeChangeLog l = some it (so that l.Hash() = Keccak(wire)).
-   FALSE for the code as it is (payload_refuted_*).  Exact guard: `StrictLog`. -/
-theorem changeLog_reencode_partial (l : CLog) (it : Item) (h : decodeChangeLog it = some l) (hs : StrictLog it) :
+/-- **changeLog_reencode** (the FULL statement): `decodeChangeLog it = some l → encodeChangeLog l = some it`, so that
+    `l.Hash()` = Keccak(wire) for every accepted log of every registered type.  No guard.  (Before the payload fixes
+    4ab6b74 / a0389ea / 8a6b205 it needed `StrictLog`; the refutations are `Legacy.payload_refuted_*`.) -/
+theorem changeLog_reencode (l : CLog) (it : Item) (h : decodeChangeLog true it = some l) :
     encodeChangeLog l = some it := by
   unfold decodeChangeLog at h
   split at h
@@ -935,100 +915,102 @@ theorem changeLog_reencode_partial (l : CLog) (it : Item) (h : decodeChangeLog i
         split at h
         · rename_i nv ex hd he
           cases h
-          have g := hs a b c d e lt p q rfl ha hpq
           simp only [encodeChangeLog, hpq, enc_decU32 ha, enc_decAddr hb, enc_decU32 hc,
-            runEnc_runDec p nv d hd g.1, runEnc_runDec q ex e he g.2]
+            runEnc_runDec p nv d hd, runEnc_runDec q ex e he]
         · cases h
       · cases h
     · cases h
   · cases h
 
+/-- a decoded change log satisfies the representation invariants, hence round-trips again -/
+theorem changeLog_decoded_wf (l : CLog) (it : Item) (h : decodeChangeLog true it = some l) : WfLog l := by
+  unfold decodeChangeLog at h
+  split at h
+  · rename_i a b c d e
+    split at h
+    · rename_i lt addr ver ha hb hc
+      split at h
+      · rename_i p q hpq
+        split at h
+        · rename_i nv ex hd he
+          cases h
+          intro p' q' hpq'
+          simp only at hpq'
+          rw [hpq] at hpq'
+          cases hpq'
+          have hn := logDecoders_nilOr hpq
+          exact ⟨runDec_wf p nv d hd hn.1, runDec_wf q ex e he hn.2⟩
+        · cases h
+      · cases h
+    · cases h
+  · cases h
+
+/-- a log with fewer (or more) than five elements is a decoding error — never an accepted value, and (7e982c7) never the
+    `rlp.EOL` that the enclosing list decoder would take for its own end -/
+theorem changeLog_five_elements (xs : List Item) (l : CLog) (h : decodeChangeLog true (.list xs) = some l) :
+    xs.length = 5 := by
+  unfold decodeChangeLog at h
+  split at h
+  · rename_i a b c d e heq
+    cases heq; rfl
+  · cases h
+
+/-- the change log read from the wire hashes to the hash of the wire bytes: its encoding IS the received byte string -/
+theorem changeLog_wire_canonical {b : List UInt8} {it : Item} {l : CLog} (hd : decode b = .ok it)
+    (h : decodeChangeLog true it = some l) : (encodeChangeLog l).map encode = some b := by
+  rw [changeLog_reencode l it h]
+  simp [canonical hd]
+
 /-- a complete change log: type, 20-byte address, version 1, NewVal, Extra -/
 def logItem (lt : UInt8) (nv ex : Item) : Item :=
   .list [.bytes [lt], .bytes (List.replicate 20 7), .bytes [1], nv, ex]
 
-/-- the shape of the payload refutations: accepted, and the decoded log encodes to different bytes
-    (hence `Hash()` of the decoded log ≠ Keccak of the received bytes) -/
-def LogRefuted (w : Item) : Prop :=
-  ∃ l it', decodeChangeLog w = some l ∧ encodeChangeLog l = some it' ∧ encode it' ≠ encode w
-
-/-- closes `encode it' ≠ encode w` for two concrete list items -/
-macro "logNe" : tactic => `(tactic|
-  (simp (disch := decide) only [toBE_fromBE, logItem]
-   intro h
-   exact absurd (encode_list_inj (by decide) (by decide) h) (by decide)))
-
-/-- finding `changelog-payload/decodeHash`: StorageRootLog whose NewVal is the one-byte string 0x01 -/
-theorem payload_refuted_decodeHash : LogRefuted (logItem 3 (.bytes [1]) (.list [])) := by
-  refine ⟨_, _, rfl, rfl, ?_⟩
-  logNe
-
-/-- finding `changelog-payload/decodeAddress`: VoteForLog with a 21-byte address -/
-theorem payload_refuted_decodeAddress : LogRefuted (logItem 17 (.bytes (List.replicate 21 9)) (.list [])) := by
-  refine ⟨_, _, rfl, rfl, ?_⟩
-  logNe
-
-/-- finding `changelog-payload/decodeEmptyInterface`: BalanceLog whose Extra is 0x80 (and 0x05) instead of 0xC0 -/
-theorem payload_refuted_decodeEmptyInterface :
-    LogRefuted (logItem 1 (.bytes [9]) (.bytes [])) ∧ LogRefuted (logItem 1 (.bytes [9]) (.bytes [5])) := by
-  refine ⟨⟨_, _, rfl, rfl, ?_⟩, ⟨_, _, rfl, rfl, ?_⟩⟩ <;> logNe
-
-/-- finding `changelog-payload/decodeSigners`: SignerLog whose NewVal is 0x80 -/
-theorem payload_refuted_decodeSigners : LogRefuted (logItem 19 (.bytes []) (.list [])) := by
-  refine ⟨_, _, rfl, rfl, ?_⟩
-  logNe
-
-/-- finding `changelog-payload/decodeAsset`: AssetCodeLog whose NewVal is 0x80 -/
-theorem payload_refuted_decodeAsset :
-    LogRefuted (logItem 4 (.bytes []) (.bytes (List.replicate 32 1))) := by
-  refine ⟨_, _, rfl, rfl, ?_⟩
-  logNe
-
-/-- finding `changelog-payload/decodeEquity`: EquityLog whose NewVal is the single byte 0x05 -/
-theorem payload_refuted_decodeEquity :
-    LogRefuted (logItem 10 (.bytes [5]) (.bytes (List.replicate 32 1))) := by
-  refine ⟨_, _, rfl, rfl, ?_⟩
-  logNe
-
-/-- finding `changelog-payload/decodeProfileChangeLogExtra`: AssetCodeStateLog whose Extra is 0x80 -/
-theorem payload_refuted_decodeProfileChangeLogExtra :
-    LogRefuted (logItem 5 (.bytes [0x61]) (.bytes [])) := by
-  refine ⟨_, _, rfl, rfl, ?_⟩
-  logNe
-
-/-- finding `profile` inside a log: CandidateLog whose profile has a duplicate key -/
-theorem changelog_refuted_profile_in_candidate :
-    LogRefuted (logItem 12 (.list [pairItem ([0x6b], [1]), pairItem ([0x6b], [2])]) (.list [])) := by
-  refine ⟨_, _, rfl, rfl, ?_⟩
-  logNe
-
-/-- the value-level asymmetry behind `changelog-redo-after-decode/SignerLog`: a typed empty signer list is
-    written as 0xC0 and read back as the untyped nil -/
-theorem signers_empty_reads_back_nil :
-    runEnc (.nilOr signersSchema) (.v (.list [])) = some (.list []) ∧
-    runDec (.nilOr signersSchema) (.list []) = some (.v .nil) := ⟨rfl, rfl⟩
-
-/-- finding `changelog-eol`: 0xC1 0xC0 (a list holding one EMPTY change log) is accepted as the empty list of
-    change logs, which is written 0xC0; a log cut after its NewVal does the same -/
-theorem changelog_eol_refuted :
-    decodeLogSlice (.list [.list []]) = some [] ∧ encodeLogSlice [] = some (.list []) ∧
-    encode (.list [.list []]) = [0xC1, 0xC0] ∧ encode (.list []) = [0xC0] ∧
-    decodeLogSlice (.list [.list [.bytes [1], .bytes (List.replicate 20 7), .bytes [1], .bytes [9]]]) = some [] := by
-  refine ⟨rfl, rfl, by decide, by decide, rfl⟩
-
-/-- without a leaking element and on strict logs, a list of change logs re-encodes identically -/
-theorem logSlice_reencode_partial : ∀ (xs : List Item) (ls : List CLog), decodeLogElems xs = some ls →
-    (∀ x ∈ xs, leaksEOL x = false ∧ StrictLog x) → encodeLogElems ls = some xs
-  | [], ls, h, _ => by simp [decodeLogElems] at h; subst h; rfl
-  | x :: rest, ls, h, hg => by
-    have hx := hg x (List.mem_cons_self ..)
-    simp only [decodeLogElems, hx.1, Bool.false_eq_true, if_false] at h
+/-- **logSlice_reencode** (full): an accepted list of change logs re-encodes identically — every element is a complete,
+    canonical log (before 7e982c7 a short last element ended the list: `Legacy.changelog_eol_refuted`) -/
+theorem logElems_reencode : ∀ (xs : List Item) (ls : List CLog), decodeLogElems true xs = some ls →
+    encodeLogElems ls = some xs
+  | [], ls, h => by simp [decodeLogElems] at h; subst h; rfl
+  | x :: rest, ls, h => by
+    simp only [decodeLogElems, Bool.not_true, Bool.false_and, Bool.false_eq_true, if_false] at h
     split at h
     · rename_i l ls' h1 h2
       cases h
-      have ih := logSlice_reencode_partial rest ls' h2 (fun y hy => hg y (List.mem_cons_of_mem _ hy))
-      simp only [encodeLogElems, changeLog_reencode_partial l x h1 hx.2, ih]
+      have ih := logElems_reencode rest ls' h2
+      simp only [encodeLogElems, changeLog_reencode l x h1, ih]
     · cases h
+
+theorem logSlice_reencode {it : Item} {ls : List CLog} (h : decodeLogSlice true it = some ls) :
+    encodeLogSlice ls = some it := by
+  cases it with
+  | bytes b => simp [decodeLogSlice] at h
+  | list xs =>
+    simp only [decodeLogSlice] at h
+    simp [encodeLogSlice, logElems_reencode xs ls h]
+
+theorem logElems_roundtrip : ∀ (ls : List CLog) (xs : List Item), encodeLogElems ls = some xs →
+    (∀ l ∈ ls, WfLog l) → decodeLogElems true xs = some ls
+  | [], xs, h, _ => by simp [encodeLogElems] at h; subst h; rfl
+  | l :: ls, xs, h, hg => by
+    rw [encodeLogElems] at h
+    split at h
+    · rename_i x xs' h1 h2
+      cases h
+      have ih := logElems_roundtrip ls xs' h2 (fun y hy => hg y (List.mem_cons_of_mem _ hy))
+      simp only [decodeLogElems, Bool.not_true, Bool.false_and, Bool.false_eq_true, if_false,
+        changeLog_roundtrip l x h1 (hg l (List.mem_cons_self ..)), ih]
+    · cases h
+
+/-- a list of change logs (the ChangeLogs of a block) decodes from its own encoding to itself -/
+theorem logSlice_roundtrip (ls : List CLog) (it : Item) (h : encodeLogSlice ls = some it) (hg : ∀ l ∈ ls, WfLog l) :
+    decodeLogSlice true it = some ls := by
+  unfold encodeLogSlice at h
+  cases he : encodeLogElems ls with
+  | none => simp [he] at h
+  | some xs =>
+    simp only [he, Option.map_some, Option.some.injEq] at h
+    subst h
+    simp only [decodeLogSlice]
+    exact logElems_roundtrip ls xs he hg
 
 /-! #### Header = rlpHeader + root elision, composed -/
 
@@ -1036,14 +1018,30 @@ def rootLen32 : Val → Prop
   | .bytes r => r.length = 32
   | _ => True
 
+theorem rootsOk_enc (E : List UInt8) : ∀ (i : Nat) (vs : List Val), okAt rootLen32 i vs →
+    rootsOk E i (mapAt (onBytes (encRoot E)) i vs) = true
+  | _, [], _ => rfl
+  | i, x :: xs, h => by
+    simp only [okAt] at h
+    simp only [mapAt, rootsOk, Bool.and_eq_true]
+    refine ⟨?_, rootsOk_enc E (i + 1) xs h.2⟩
+    by_cases hi : i = 3 ∨ i = 4
+    · rw [if_pos hi, if_pos hi]
+      cases x with
+      | bytes r => exact rootOk_encRoot E r (h.1 hi)
+      | nat _ => rfl
+      | list _ => rfl
+      | nil => rfl
+    · rw [if_neg hi]
+
 /-- **header_roundtrip**: a Header (both roots 32 bytes, `E` = EmptyTrieHash included) decodes from its own
     encoding to itself. -/
 theorem header_roundtrip (E : List UInt8) (vs : List Val) (it : Item) (h : encodeHeader E (.list vs) = some it)
-    (hr : okAt rootLen32 0 vs) : decodeHeader E it = some (.list vs) := by
+    (hr : okAt rootLen32 0 vs) : decodeHeader true E it = some (.list vs) := by
   unfold encodeHeader at h
   unfold decodeHeader
-  rw [decodeS_encodeS _ _ _ h]
-  simp only
+  rw [decodeS_encodeS true _ _ _ h]
+  simp only [rootsOk_enc E 0 vs hr, Bool.not_true, Bool.and_false, Bool.false_eq_true, if_false]
   rw [mapAt_mapAt, mapAt_id]
   refine okAt_mono ?_ 0 vs hr
   intro x hx
@@ -1053,54 +1051,310 @@ theorem header_roundtrip (E : List UInt8) (vs : List Val) (it : Item) (h : encod
   | list _ => rfl
   | nil => rfl
 
-def wireRootOk (E : List UInt8) : Val → Prop
-  | .bytes b => b = [] ∨ (b.length = 32 ∧ b ≠ E)
-  | _ => True
-
-/- Full statement: decodeHeader E it = some v → encodeHeader E v = some it.  FALSE (header_reencode_refuted).
-   Exact guard: both wire roots are empty or 32 bytes different from EmptyTrieHash. -/
-theorem header_reencode_partial (E : List UInt8) (it : Item) (v : Val) (h : decodeHeader E it = some v)
-    (hw : ∀ ws, decodeS headerSchema it = some (.list ws) → okAt (wireRootOk E) 0 ws) :
+/-- **header_reencode** (the FULL statement): `decodeHeader E it = some v → encodeHeader E v = some it` — one wire
+    encoding per header, wherever it sits (block, blocks message).  No guard: `Header.DecodeRLP` itself refuses a root
+    that is not empty or 32 bytes other than EmptyTrieHash.  (Before /repo 05de783: `Legacy.header_reencode_refuted`.) -/
+theorem header_reencode (E : List UInt8) (it : Item) (v : Val) (h : decodeHeader true E it = some v) :
     encodeHeader E v = some it := by
   unfold decodeHeader at h
   split at h
   · rename_i ws hd
-    cases h
-    show encodeS headerSchema (.list (mapAt (onBytes (encRoot E)) 0 (mapAt (onBytes (decRoot E)) 0 ws))) = some it
-    rw [mapAt_mapAt, mapAt_id]
-    · exact encodeS_decodeS it headerSchema _ (by decide) hd
-    · refine okAt_mono ?_ 0 ws (hw ws hd)
-      intro x hx
-      cases x with
-      | bytes r => simp only [Function.comp, onBytes]; rw [root_reencode_partial E r hx]
-      | nat _ => rfl
-      | list _ => rfl
-      | nil => rfl
+    by_cases hr : rootsOk E 0 ws = true
+    · simp only [hr, Bool.not_true, Bool.and_false, Bool.false_eq_true, if_false, Option.some.injEq] at h
+      subst h
+      show encodeS headerSchema (.list (mapAt (onBytes (encRoot E)) 0 (mapAt (onBytes (decRoot E)) 0 ws))) = some it
+      rw [mapAt_mapAt, mapAt_id]
+      · exact encodeS_decodeS it headerSchema _ hd
+      · refine okAt_mono ?_ 0 ws (okAt_of_rootsOk E 0 ws hr)
+        intro x hx
+        cases x with
+        | bytes r =>
+          simp only [Function.comp, onBytes]
+          have hx' : rootOk E r = true := by
+            unfold rootOk
+            cases hx with
+            | inl h0 => subst h0; rfl
+            | inr h1 =>
+              have : r.isEmpty = false := by cases r with
+                | nil => simp at h1
+                | cons a t => rfl
+              simp [this, h1.1, h1.2]
+          rw [root_reencode E r hx']
+        | nat _ => rfl
+        | list _ => rfl
+        | nil => rfl
+    · have hr' : rootsOk E 0 ws = false := by cases hh : rootsOk E 0 ws with
+        | true => exact absurd hh hr
+        | false => rfl
+      simp [hr'] at h
   · cases h
 
-/-- a complete wire header whose TxRoot is the single byte 0x64 (the open finding `header-root`) -/
+/-- the header read from the wire: its encoding is the received byte string -/
+theorem header_wire_canonical {E b : List UInt8} {it : Item} {v : Val} (hd : decode b = .ok it)
+    (h : decodeHeader true E it = some v) : (encodeHeader E v).map encode = some b := by
+  rw [header_reencode E it v h]
+  simp [canonical hd]
+
+/-- a complete wire header whose TxRoot is the single byte 0x64 (the witness of the closed finding `header-root`) -/
 def headerWitness : Item :=
   .list [.bytes (List.replicate 32 0), .bytes (List.replicate 20 0), .bytes (List.replicate 32 0), .bytes [0x64], .bytes [],
          .bytes [], .bytes [], .bytes [], .bytes [], .bytes [], .bytes [], .bytes []]
 
+/-- … is rejected by the code as it is -/
+theorem headerWitness_rejected : decodeHeader true emptyTrieHash headerWitness = none := by rfl
+
+/-- what `Header.Hash()` feeds to Keccak is a function of the decoded value only (it reads the fields, never the wire
+    bytes or a cache filled by the decoder), so the round trip preserves it; Keccak itself is not modelled. -/
+theorem header_hash_preimage_stable (E : List UInt8) (vs : List Val) (it : Item) (v' : Val)
+    (h : encodeHeader E (.list vs) = some it) (hr : okAt rootLen32 0 vs) (hd : decodeHeader true E it = some v') :
+    headerHashPreimage v' = headerHashPreimage (.list vs) := by
+  rw [header_roundtrip E vs it h hr] at hd
+  cases hd; rfl
+
+/-! #### Block = Header + transactions + change logs + confirms + deputy nodes -/
+
+/-- representation invariants of a block VALUE: 32-byte header roots, well-formed change logs (`WfLog`) -/
+def WfBlock (b : BlockV) : Prop :=
+  (∀ vs, b.header = .list vs → okAt rootLen32 0 vs) ∧ (∀ l ∈ b.logs, WfLog l)
+
+/-- **block_roundtrip**: a block decodes from its own encoding to itself -/
+theorem block_roundtrip (E : List UInt8) (b : BlockV) (it : Item) (h : encodeBlock E b = some it) (hw : WfBlock b) :
+    decodeBlock E it = some b := by
+  unfold encodeBlock at h
+  split at h
+  · rename_i hi ti li ci di hh ht hl hc hd
+    cases h
+    obtain ⟨hdr, txs, logs, cfs, dns⟩ := b
+    simp only at hh ht hl hc hd hw
+    have hhdr : decodeHeader true E hi = some hdr := by
+      cases hdr with
+      | list vs => exact header_roundtrip E vs hi hh (hw.1 vs rfl)
+      | bytes _ => simp [encodeHeader] at hh
+      | nat _ => simp [encodeHeader] at hh
+      | nil => simp [encodeHeader] at hh
+    simp only [decodeBlock, hhdr, decodeS_encodeS true _ _ _ ht, logSlice_roundtrip logs li hl hw.2,
+      decodeS_encodeS true _ _ _ hc, decodeS_encodeS true _ _ _ hd]
+  · cases h
+
+/-- **block_reencode** (full): whatever the Block decoder accepts re-encodes to exactly the accepted item — one wire
+    encoding per block.  (Before the fixes a block inherited the laxness of headers, `rlp:"nil"` fields, profiles and
+    payloads, and a short change log desynchronised the list stack: [hdr, c0, [c0, c0, c0]] was read as [hdr, c0, c0, c0, c0].) -/
+theorem block_reencode (E : List UInt8) (it : Item) (b : BlockV) (h : decodeBlock E it = some b) :
+    encodeBlock E b = some it := by
+  unfold decodeBlock at h
+  split at h
+  · rename_i hi ti li ci di
+    split at h
+    · rename_i hv tv lv cv dv hh ht hl hc hd
+      cases h
+      simp only [encodeBlock, header_reencode E hi hv hh, encodeS_decodeS ti _ tv ht, logSlice_reencode hl,
+        encodeS_decodeS ci _ cv hc, encodeS_decodeS di _ dv hd]
+    · cases h
+  · cases h
+
+/-- the block read from the wire: its encoding is the received byte string -/
+theorem block_wire_canonical {E b : List UInt8} {it : Item} {v : BlockV} (hd : decode b = .ok it)
+    (h : decodeBlock E it = some v) : (encodeBlock E v).map encode = some b := by
+  rw [block_reencode E it v h]
+  simp [canonical hd]
+
+/-- the block of the closed finding `changelog-eol`, [hdr, [], [[], [], []]] (the three-element form whose inner list was
+    read as the remaining fields), is rejected whatever the header is: a block has five elements -/
+theorem block_three_elements_rejected (E : List UInt8) (h x : Item) : decodeBlock E (.list [h, .list [], x]) = none := by
+  rfl
+
+/-! #### the witnesses of the closed findings are rejected by the code as it is (tests of the model, `fx = true`) -/
+
+example : decodeProfile true (.list [pairItem ([0x6b], [0x76, 0x31]), pairItem ([0x6b], [0x76, 0x32])]) = none := by decide
+example : decodeProfile true (.list [pairItem ([0x62], [1]), pairItem ([0x61], [1])]) = none := by decide
+example : decodeProfile true (.bytes []) = none ∧ decodeProfile true (.bytes [0x12]) = none := ⟨rfl, rfl⟩
+example : decodeProfile true (.list []) = some [] := by rfl
+example : decodeAsset true (.list [.bytes [1], .bytes [], .bytes (List.replicate 32 0), .bytes [5], .bytes [], .bytes [],
+    .bytes (List.replicate 20 0)]) = none := by rfl
+example : decodeChangeLog true (logItem 3 (.bytes [1]) (.list [])) = none := by rfl                  -- decodeHash, 1 byte
+example : decodeChangeLog true (logItem 17 (.bytes (List.replicate 21 9)) (.list [])) = none := by rfl  -- decodeAddress, 21 bytes
+example : decodeChangeLog true (logItem 1 (.bytes [9]) (.bytes [])) = none := by rfl                 -- Extra 0x80
+example : decodeChangeLog true (logItem 1 (.bytes [9]) (.bytes [5])) = none := by rfl                -- Extra 0x05
+example : decodeChangeLog true (logItem 19 (.bytes []) (.list [])) = none := by rfl                  -- signers 0x80
+example : decodeChangeLog true (logItem 4 (.bytes []) (.bytes (List.replicate 32 1))) = none := by rfl  -- asset 0x80
+example : decodeChangeLog true (logItem 10 (.bytes [5]) (.bytes (List.replicate 32 1))) = none := by rfl -- equity 0x05
+example : decodeChangeLog true (logItem 5 (.bytes [0x61]) (.bytes [])) = none := by rfl              -- extra struct 0x80
+example : decodeLogSlice true (.list [.list []]) = none := by rfl                                    -- 0xC1C0
+example : decodeLogSlice true (.list [.list [.bytes [1], .bytes (List.replicate 20 7), .bytes [1], .bytes [9]]]) = none := by rfl
+/-- the typed values behind the closed findings `changelog-redo-after-decode/*`: an empty Signers list, an empty
+    candidate Profile and a nil Asset are read back as a Signers list / a Profile / a nil payload, and round-trip -/
+example : runDec true .signers (.list []) = some (.v (.list [])) ∧ runEnc .signers (.v (.list [])) = some (.list []) := ⟨rfl, rfl⟩
+example : runDec true .candidate (.list []) = some (.prof []) ∧ runEnc .candidate (.prof []) = some (.list []) := ⟨rfl, rfl⟩
+example : runDec true .asset (.list []) = some (.v .nil) ∧ runEnc .asset (.v .nil) = some (.list []) := ⟨rfl, rfl⟩
+
+end Custom
+
+/-! ### the code BEFORE the strictness fixes (`fx = false`): labelled refutation witnesses
+
+  NOT registered and not counted.  They record what refuted the full statements above on the code before the fixes (each
+  names the /repo commit that closed the finding) and keep the `fx = false` branch of the model meaningful: the same
+  witnesses are REJECTED under `fx = true` (`txWitness_rejected`, `headerWitness_rejected`, `root_rejects_*`, the
+  examples at the end of the section above). -/
+
+namespace Legacy
+section
+open LemoModel.RlpCustom LemoProofs.RlpCustomLemmas
+
+/-- [before ac28a64, finding nil-pointer-as-empty-list] 0xC0 in a `rlp:"nil"` position was taken for nil, which is written 0x80 -/
+theorem schema_reencode_refuted :
+    decodeS false (.optFixed 20) (.list []) = some .nil ∧ encodeS (.optFixed 20) .nil = some (.bytes []) ∧
+    encode (.bytes []) = [0x80] ∧ encode (.list []) = [0xC0] := by
+  refine ⟨rfl, rfl, by decide, by decide⟩
+
+/-- [before ac28a64] the transaction decoder accepted `txWitness`, and the decoded transaction encodes to different bytes -/
+theorem tx_reencode_refuted :
+    ∃ v it', decodeS false txSchema txWitness = some v ∧ encodeS txSchema v = some it' ∧ encode it' ≠ encode txWitness := by
+  refine ⟨_, _, rfl, rfl, ?_⟩
+  simp (disch := decide) only [toBE_fromBE]
+  decide
+
+/-- [before 05de783, finding header-root] `decRoot` was applied to EVERY byte string: a 1-byte root came back as 32 bytes -/
+theorem root_reencode_refuted_short (E : List UInt8) (hE : E ≠ bytesToHash [1]) :
+    encRoot E (decRoot E [1]) ≠ [1] := by
+  unfold encRoot decRoot
+  simp only [List.isEmpty_cons, Bool.false_eq_true, if_false]
+  rw [if_neg (fun h => hE h.symm)]
+  decide
+
+/-- [before 05de783] the empty root written out explicitly (32 bytes) came back elided -/
+theorem root_reencode_refuted_explicit (E : List UInt8) (hE : E.length = 32) :
+    encRoot E (decRoot E E) ≠ E := by
+  unfold encRoot decRoot
+  have hne : E.isEmpty = false := by cases E with
+    | nil => simp at hE
+    | cons a t => rfl
+  simp only [hne, Bool.false_eq_true, if_false, bytesToHash_32 hE, if_true]
+  intro h
+  rw [← h] at hE
+  simp at hE
+
+theorem root_reencode_refuted_short_emptyTrieHash :
+    encRoot emptyTrieHash (decRoot emptyTrieHash [1]) ≠ [1] :=
+  root_reencode_refuted_short _ (by decide)
+
 set_option maxRecDepth 8192 in
+/-- [before 05de783] a complete header with a 1-byte TxRoot was accepted and re-encoded to other bytes -/
 theorem header_reencode_refuted :
-    ∃ v it', decodeHeader emptyTrieHash headerWitness = some v ∧ encodeHeader emptyTrieHash v = some it' ∧
+    ∃ v it', decodeHeader false emptyTrieHash headerWitness = some v ∧ encodeHeader emptyTrieHash v = some it' ∧
       encode it' ≠ encode headerWitness := by
   refine ⟨_, _, rfl, rfl, ?_⟩
   simp (disch := decide) only [toBE_fromBE, headerWitness]
   intro h
   exact absurd (encode_list_inj (by decide) (by decide) h) (by decide)
 
-/-- what `Header.Hash()` hashes is a function of the decoded value only (it reads the fields, never the wire
-    bytes or a cache filled by the decoder), so the round trip preserves it; Keccak itself is not modelled. -/
-theorem header_hash_preimage_stable (E : List UInt8) (vs : List Val) (it : Item) (v' : Val)
-    (h : encodeHeader E (.list vs) = some it) (hr : okAt rootLen32 0 vs) (hd : decodeHeader E it = some v') :
-    headerHashPreimage v' = headerHashPreimage (.list vs) := by
-  rw [header_roundtrip E vs it h hr] at hd
-  cases hd; rfl
+/-- [before 8a6b205, finding profile/duplicate-key] a duplicate key was accepted, the last value won -/
+theorem profile_refuted_duplicate :
+    decodeProfile false (.list [pairItem ([0x6b], [0x76, 0x31]), pairItem ([0x6b], [0x76, 0x32])]) = some [([0x6b], [0x76, 0x32])] ∧
+    encode (encodeProfile [([0x6b], [0x76, 0x32])]) ≠
+      encode (.list [pairItem ([0x6b], [0x76, 0x31]), pairItem ([0x6b], [0x76, 0x32])]) := by
+  refine ⟨by decide, by decide⟩
 
-end Custom
+/-- [before 8a6b205, finding profile/unsorted] unsorted pairs were accepted and came back sorted -/
+theorem profile_refuted_unsorted :
+    decodeProfile false (.list [pairItem ([0x62], [1]), pairItem ([0x61], [1])]) = some [([0x61], [1]), ([0x62], [1])] ∧
+    encode (encodeProfile [([0x61], [1]), ([0x62], [1])]) ≠ encode (.list [pairItem ([0x62], [1]), pairItem ([0x61], [1])]) := by
+  refine ⟨by decide, by decide⟩
+
+/-- [before 8a6b205, finding profile/empty-form] 0x80 and a single byte like 0x12 were accepted as the empty profile (written 0xC0) -/
+theorem profile_refuted_empty_forms :
+    decodeProfile false (.bytes []) = some [] ∧ decodeProfile false (.bytes [0x12]) = some [] ∧
+    encode (encodeProfile []) = [0xC0] ∧ encode (.bytes []) = [0x80] ∧ encode (.bytes [0x12]) = [0x12] := by
+  refine ⟨by decide, by decide, by decide, by decide, by decide⟩
+
+/-- [before 8a6b205, finding profile/missing-field] an Asset list without its Profile element was accepted
+    (`Profile.DecodeRLP` ignored the EOL of `Stream.Kind`) and re-encoded with the empty profile appended -/
+theorem asset_refuted_missing_profile :
+    ∃ v it', decodeAsset false (.list [.bytes [1], .bytes [], .bytes (List.replicate 32 0), .bytes [5], .bytes [], .bytes [],
+        .bytes (List.replicate 20 0)]) = some v ∧ encodeAsset v = some it' ∧
+      encode it' ≠ encode (.list [.bytes [1], .bytes [], .bytes (List.replicate 32 0), .bytes [5], .bytes [], .bytes [],
+        .bytes (List.replicate 20 0)]) := by
+  refine ⟨_, _, rfl, rfl, ?_⟩
+  simp (disch := decide) only [toBE_fromBE]
+  intro h
+  exact absurd (encode_list_inj (by decide) (by decide) h) (by decide)
+
+/-- the shape of the payload refutations: accepted, and the decoded log encodes to different bytes
+    (hence `Hash()` of the decoded log ≠ Keccak of the received bytes) -/
+def LogRefuted (w : Item) : Prop :=
+  ∃ l it', decodeChangeLog false w = some l ∧ encodeChangeLog l = some it' ∧ encode it' ≠ encode w
+
+/-- closes `encode it' ≠ encode w` for two concrete list items -/
+macro "logNe" : tactic => `(tactic|
+  (simp (disch := decide) only [toBE_fromBE, logItem]
+   intro h
+   exact absurd (encode_list_inj (by decide) (by decide) h) (by decide)))
+
+/-- [before 4ab6b74, finding changelog-payload/decodeHash] StorageRootLog whose NewVal is the one-byte string 0x01 -/
+theorem payload_refuted_decodeHash : LogRefuted (logItem 3 (.bytes [1]) (.list [])) := by
+  refine ⟨_, _, rfl, rfl, ?_⟩
+  logNe
+
+/-- [before 4ab6b74, finding changelog-payload/decodeAddress] VoteForLog with a 21-byte address -/
+theorem payload_refuted_decodeAddress : LogRefuted (logItem 17 (.bytes (List.replicate 21 9)) (.list [])) := by
+  refine ⟨_, _, rfl, rfl, ?_⟩
+  logNe
+
+/-- [before a0389ea, finding changelog-payload/decodeEmptyInterface] BalanceLog whose Extra is 0x80 (and 0x05) instead of 0xC0 -/
+theorem payload_refuted_decodeEmptyInterface :
+    LogRefuted (logItem 1 (.bytes [9]) (.bytes [])) ∧ LogRefuted (logItem 1 (.bytes [9]) (.bytes [5])) := by
+  refine ⟨⟨_, _, rfl, rfl, ?_⟩, ⟨_, _, rfl, rfl, ?_⟩⟩ <;> logNe
+
+/-- [before a0389ea, finding changelog-payload/decodeSigners] SignerLog whose NewVal is 0x80 -/
+theorem payload_refuted_decodeSigners : LogRefuted (logItem 19 (.bytes []) (.list [])) := by
+  refine ⟨_, _, rfl, rfl, ?_⟩
+  logNe
+
+/-- [before a0389ea, finding changelog-payload/decodeAsset] AssetCodeLog whose NewVal is 0x80 -/
+theorem payload_refuted_decodeAsset :
+    LogRefuted (logItem 4 (.bytes []) (.bytes (List.replicate 32 1))) := by
+  refine ⟨_, _, rfl, rfl, ?_⟩
+  logNe
+
+/-- [before a0389ea, finding changelog-payload/decodeEquity] EquityLog whose NewVal is the single byte 0x05 -/
+theorem payload_refuted_decodeEquity :
+    LogRefuted (logItem 10 (.bytes [5]) (.bytes (List.replicate 32 1))) := by
+  refine ⟨_, _, rfl, rfl, ?_⟩
+  logNe
+
+/-- [before a0389ea, finding changelog-payload/decodeProfileChangeLogExtra] AssetCodeStateLog whose Extra is 0x80 -/
+theorem payload_refuted_decodeProfileChangeLogExtra :
+    LogRefuted (logItem 5 (.bytes [0x61]) (.bytes [])) := by
+  refine ⟨_, _, rfl, rfl, ?_⟩
+  logNe
+
+/-- [before 8a6b205, finding profile inside a log] CandidateLog whose profile has a duplicate key -/
+theorem changelog_refuted_profile_in_candidate :
+    LogRefuted (logItem 12 (.list [pairItem ([0x6b], [1]), pairItem ([0x6b], [2])]) (.list [])) := by
+  refine ⟨_, _, rfl, rfl, ?_⟩
+  logNe
+
+/-- [before f02560a, finding changelog-redo-after-decode/SignerLog] a typed empty signer list was written as 0xC0 and read
+    back as the untyped nil -/
+theorem signers_empty_reads_back_nil :
+    runEnc .signers (.v (.list [])) = some (.list []) ∧
+    runDec false .signers (.list []) = some (.v .nil) := ⟨rfl, rfl⟩
+
+/-- [before 29ca096, finding changelog-redo-after-decode/CandidateLog] an empty profile was read back as a `*interface{}`
+    holding the raw item -/
+theorem candidate_empty_reads_back_raw :
+    runEnc .candidate (.prof []) = some (.list []) ∧
+    runDec false .candidate (.list []) = some (.raw (.list [])) := ⟨rfl, rfl⟩
+
+/-- [before 7e982c7, finding changelog-eol] 0xC1 0xC0 (a list holding one EMPTY change log) was accepted as the empty list of
+    change logs, which is written 0xC0; a log cut after its NewVal did the same -/
+theorem changelog_eol_refuted :
+    decodeLogSlice false (.list [.list []]) = some [] ∧ encodeLogSlice [] = some (.list []) ∧
+    encode (.list [.list []]) = [0xC1, 0xC0] ∧ encode (.list []) = [0xC0] ∧
+    decodeLogSlice false (.list [.list [.bytes [1], .bytes (List.replicate 20 7), .bytes [1], .bytes [9]]]) = some [] := by
+  refine ⟨rfl, rfl, by decide, by decide, rfl⟩
+
+end
+end Legacy
 
 /-! ### address text form: "Lemo" + base26(address ++ xor check byte) -/
 
@@ -1236,51 +1490,55 @@ theorem encode_small (x : Item) (h : weight x < 2 ^ 64) : (encode x).length < 2 
 
 /-! ### non-vacuity -/
 
-/-- `root_reencode_refuted_short` with `E` instantiated by the real `merkle.EmptyTrieHash` -/
-theorem root_reencode_refuted_short_emptyTrieHash :
-    encRoot LemoModel.RlpCustom.emptyTrieHash (decRoot LemoModel.RlpCustom.emptyTrieHash [1]) ≠ [1] :=
-  root_reencode_refuted_short _ (by decide)
-
 -- the hypotheses of the typed `_reencode` instances are satisfiable (values built by the encoder)
-example : ∃ b v, decodeTyped deputyNodeSchema b = some v := by
+example : ∃ b v, decodeTyped true deputyNodeSchema b = some v := by
   refine ⟨_, .list [.bytes (List.replicate 20 1), .bytes [1, 2], .nat 0, .nat 0],
     schema_roundtrip (s := deputyNodeSchema) rfl ?_⟩
   exact encode_small _ (by simp only [toBE_zero]; decide)
-example : ∃ b v, decodeTyped blockConfirmSchema b = some v := by
+example : ∃ b v, decodeTyped true blockConfirmSchema b = some v := by
   refine ⟨_, .list [.bytes (List.replicate 32 1), .nat 0, .bytes (List.replicate 65 2)],
     schema_roundtrip (s := blockConfirmSchema) rfl ?_⟩
   exact encode_small _ (by simp only [toBE_zero]; decide)
-example : ∃ b v, decodeTyped blockConfirmsSchema b = some v := by
+example : ∃ b v, decodeTyped true blockConfirmsSchema b = some v := by
   refine ⟨_, .list [.nat 0, .bytes (List.replicate 32 1), .list [.bytes (List.replicate 65 2)]],
     schema_roundtrip (s := blockConfirmsSchema) rfl ?_⟩
   exact encode_small _ (by simp only [toBE_zero]; decide)
-example : ∃ b v, decodeTyped handshakeSchema b = some v := by
+example : ∃ b v, decodeTyped true handshakeSchema b = some v := by
   refine ⟨_, .list [.nat 0, .bytes (List.replicate 32 1), .nat 0,
       .list [.nat 0, .bytes (List.replicate 32 1), .nat 0, .bytes (List.replicate 32 3)]],
     schema_roundtrip (s := handshakeSchema) rfl ?_⟩
   exact encode_small _ (by simp only [toBE_zero]; decide)
-example : ∃ b v, decodeTyped headerSchema b = some v := by
+example : ∃ b v, decodeTyped true headerSchema b = some v := by
   refine ⟨_, .list [.bytes (List.replicate 32 1), .bytes (List.replicate 20 1), .bytes (List.replicate 32 1), .bytes [], .bytes [],
       .nat 0, .nat 0, .nat 0, .nat 0, .bytes [], .bytes [], .bytes []],
     schema_roundtrip (s := headerSchema) rfl ?_⟩
   exact encode_small _ (by simp only [toBE_zero]; decide)
--- the guards of the custom-layer theorems are satisfiable
+-- a transaction with a nil `gasPayer` and a 20-byte `to`: the hypothesis of `tx_reencode` is satisfiable
+example : ∃ b v, decodeTyped true txSchema b = some v := by
+  refine ⟨_, .list [.nat 0, .nat 0, .nat 0, .bytes (List.replicate 20 1), .nil, .bytes (List.replicate 20 2), .bytes [],
+      .nat 0, .nat 0, .nat 0, .nat 0, .bytes [], .nat 0, .bytes [], .list [], .list []],
+    schema_roundtrip (s := txSchema) rfl ?_⟩
+  exact encode_small _ (by simp only [toBE_zero]; decide)
+-- the hypotheses of the custom-layer theorems are satisfiable
 example : LemoProofs.RlpCustomLemmas.Sorted [([0x61], [1]), ([0x62], [2])] := by
   unfold LemoProofs.RlpCustomLemmas.Sorted; simp [LemoModel.RlpCustom.ltBytes]
-example : ∃ it l, LemoModel.RlpCustom.decodeChangeLog it = some l ∧ StrictLog it := by
-  refine ⟨logItem 3 (.bytes (List.replicate 32 1)) (.list []), _, rfl, ?_⟩
-  intro a b c d e lt p q hit ha hpq
-  simp only [logItem] at hit
-  injection hit with hit
-  injection hit with h1 hit; injection hit with h2 hit; injection hit with h3 hit
-  injection hit with h4 hit; injection hit with h5 _
-  subst h1 h4 h5
-  have : lt = 3 := by
-    have : LemoModel.RlpCustom.decU32 (.bytes [3]) = some 3 := rfl
-    rw [this] at ha; cases ha; rfl
-  subst this
-  cases hpq
-  exact ⟨⟨_, rfl, by simp⟩, rfl⟩
+example : ∃ it ps, LemoModel.RlpCustom.decodeProfile true it = some ps ∧ ps ≠ [] :=
+  ⟨.list [LemoModel.RlpCustom.pairItem ([0x61], [1]), LemoModel.RlpCustom.pairItem ([0x62], [2])],
+    [([0x61], [1]), ([0x62], [2])], by decide, by simp⟩
+example : ∃ it l, LemoModel.RlpCustom.decodeChangeLog true it = some l :=
+  ⟨logItem 3 (.bytes (List.replicate 32 1)) (.list []), _, rfl⟩
+example : ∃ it l, LemoModel.RlpCustom.decodeChangeLog true it = some l :=          -- a CandidateLog with a two-key profile
+  ⟨logItem 12 (.list [LemoModel.RlpCustom.pairItem ([0x61], [1]), LemoModel.RlpCustom.pairItem ([0x62], [2])]) (.list []), _, rfl⟩
+example : ∃ it ls, LemoModel.RlpCustom.decodeLogSlice true it = some ls ∧ ls ≠ [] :=
+  ⟨.list [logItem 3 (.bytes (List.replicate 32 1)) (.list [])], _, rfl, by simp⟩
+example : ∃ it v, LemoModel.RlpCustom.decodeHeader true LemoModel.RlpCustom.emptyTrieHash it = some v :=
+  ⟨.list [.bytes (List.replicate 32 0), .bytes (List.replicate 20 0), .bytes (List.replicate 32 0), .bytes (List.replicate 32 9), .bytes [],
+         .bytes [], .bytes [], .bytes [], .bytes [], .bytes [], .bytes [], .bytes []], _, rfl⟩
+example : ∃ l, WfLog l := by
+  refine ⟨⟨3, List.replicate 20 7, 1, .v (.bytes (List.replicate 32 1)), .v .nil⟩, ?_⟩
+  intro p q h
+  cases h
+  exact ⟨trivial, trivial⟩
 
 example : ∃ b x, decode b = .ok x :=
   ⟨_, .list [.bytes [1], .list [], .bytes [0x80, 0x81]], decode_encode _ (by decide)⟩
